@@ -33,7 +33,8 @@ TECHNIQUE = ("runtime monitoring: real TorControlProtocol against an HMAC-comput
              "password-provider call counter, post_bootstrap call counter, reference decision table and reference HMACs")
 LEVEL_TEXT = ("Held on the executions observed: the complete product of all 64 orderings of non-empty subsets of "
               "{NULL,HASHEDPASSWORD,COOKIE,SAFECOOKIE} x 8 cookie-file conditions x 14 password-provider shapes "
-              "against a correct server (thorough; quick: a seed-dependent half), plus one injected fault "
+              "against a correct server (thorough; quick: a seed-dependent stratified subset, >= 3 cases of every "
+              "stratum), plus one injected fault "
               "(wrong/unverifiable SERVERHASH in 12 shapes, 10 malformed AUTHCHALLENGE replies, 5xx with and "
               "without hang-up, hang-up, mid-reply hang-up, hang-up while the password is awaited) at each of the "
               "7 protocol steps for every ordering; fresh nonces and cookies every run, 4 kinds of segmentation. "
